@@ -40,6 +40,7 @@ Sweep: C05.2 a direct un-placement (server set to None) releases the identity as
 Fifth round: C05.1 acquire_identity is called by the placement loop only; C05.4 the identity groups are loaded before the recorded identities are forced (shared with C11.1); C05.5 the first publication of a new master rewrites every placement the start-up cycle changed (shared with C09.1).
 Sixth round: C05.6 the removal of stale identity groups is reached on every path of the loader, also when the store lists none.
 Seventh round: C05.4 a forced identity is taken out of the group's pool on every path on which it is set; C05.1 no iteration of the placement loop or of a pre-pass ends with an unplaced instance still holding an identity.
+Eighth round: C05.3 what a growing group adds to its free set is held by nobody - a routine that gives IdentityGroup.adjust a count that may be larger than the current one then discards, for every instance of the group, the identity it holds from the free set (F12: a shrink is acted on only by the next cycle, so growing again before it - or re-creating a group emptied while in use - re-offered identities still held; repaired in /repo).
 Does NOT decide uniqueness over histories of count changes racing with
 restores (contents of sets over time).
 """
@@ -696,6 +697,106 @@ def _group_removal(ctx):
                'registry deletion only on the not-in-use outcome')
 
 
+def _regrow(ctx):
+    """C05.3: what a growing group adds to its free set is held by nobody.
+    A shrink (and the emptying of a group that is removed while in use)
+    leaves the out-of-range identities with their holders until the
+    revocation pass of the next cycle; a grow - or the re-creation of the
+    group - before that cycle adds the same numbers to the free set again,
+    and the cycle hands them out a second time while the old holder, back in
+    range, keeps his.  So a routine that gives the range adjustment a count
+    that may be larger than the current one then takes whatever the cell's
+    instances hold out of the free set, for every instance of the group, on
+    every path - or the adjustment itself is told what is held."""
+    cell = ctx.index.get_class(K.SCHED, 'Cell')
+    group = ctx.index.get_class(K.SCHED, 'IdentityGroup')
+    adjust = K.one([f for f in group.live_methods()
+                    if f.name != '__init__' and any(
+                        op != 'elem' for _n, op, _r in _pool_ops(ctx, f))],
+                   'IdentityGroup method adjusting the pool in place')
+    nz = N.Normaliser()
+    sites = 0
+    mods = [ctx.index.module(K.SCHED), ctx.index.module(K.LOADER),
+            ctx.index.module(K.MASTER)]
+    for mod in mods:
+        for func in mod.live_functions():
+            if func is adjust or not K.func_calls_method(func, adjust.name):
+                continue
+            graph = ctx.cfg(func)
+            for node, call in K.nodes_calling(
+                    graph, lambda c: K.is_meth(c, adjust.name) and
+                    len(c.args) == 1 and not c.keywords):
+                recv = K.rtxt(func, K.recv(call))
+                if 'identity_group' not in recv:
+                    continue        # another object's adjust (the tracker)
+                arg = call.args[0]
+                if isinstance(arg, ast.Constant) and arg.value == 0 and \
+                        not isinstance(arg.value, bool):
+                    continue        # shrink to nothing: adds no identity
+                sites += 1
+                gtxt = N.txt(K.recv(call))
+
+                def excludes_held(cur, gtxt=gtxt, recv=recv, func=func,
+                                  graph=graph):
+                    """cur is the head of a loop over the cell's instances
+                    that discards each one's identity from this group's
+                    free set - for every instance of the group."""
+                    if cur.kind != 'for' or \
+                            'self.apps' not in K.rtxt(func, cur.ast.iter):
+                        return False
+                    var = sorted(N.for_targets(cur))[-1]
+                    body = K.loop_body_nodes(cur)
+                    drops = [n for n in body for c in C.node_calls(n)
+                             if K.is_meth(c, 'discard') and
+                             len(c.args) == 1 and
+                             N.txt(c.args[0]) == '%s.identity' % var and
+                             K.rtxt(func, K.recv(c)) in (
+                                 '%s.available' % gtxt,
+                                 '%s.available' % recv)]
+                    if not drops:
+                        return False
+
+                    def member(edge):
+                        for a in nz.facts_of_edge(edge):
+                            key = a.key
+                            ref = '%s.identity_group_ref' % var
+                            if key[0] == 'is' and ref in key[1:3] and \
+                                    not key[3]:
+                                return True     # is not the group: skipped
+                            if key[0] == 'cmp' and key[1] == '!=' and \
+                                    ref in [t for t, _c in key[2]]:
+                                return True
+                        return False
+                    # an iteration misses the discard only for an instance
+                    # of another group
+                    starts = [e.dst for e in cur.succ if e.kind == 'iter']
+                    for start in starts:
+                        if start in drops:
+                            continue
+                        if K.find_path(start, [cur],
+                                       cut_node=lambda n: n in drops,
+                                       cut_edge=member, follow_exc=False):
+                            return False
+                    jumps = [n for n in body if n.kind in ('return',) or (
+                        n.kind == 'stmt' and isinstance(n.ast, ast.Break))]
+                    return not jumps
+                path = K.find_path(node, [graph.exit],
+                                   cut_node=lambda n: n is not node and
+                                   excludes_held(n), follow_exc=False)
+                told = len(adjust.params()) > 2      # adjust(count, held)
+                ctx.ob('C05.3', func, node, path is None or told,
+                       'after a count that may grow the range, the identities '
+                       'the instances of the group still hold are taken out '
+                       'of the free set (a shrink is acted on only in the '
+                       'next cycle: growing again before it must not re-offer '
+                       'what is still held)',
+                       path=K.describe(path) if path else None,
+                       construct='free set excludes held identities after '
+                                 '%s' % node.text(40))
+    ctx.require(sites >= 1, 'call handing a new count to IdentityGroup.%s' %
+                adjust.name, rule='C05.3')
+
+
 def identity_presence_tests(ctx, rule='C05.2'):
     """Identity 0 is an identity: whether an instance holds one is decided
     by identity `is None` / `is not None`, never by its truth value (a
@@ -828,6 +929,7 @@ def check(ctx):
     _removal_pairing(ctx)
     _model_removal(ctx)
     _range_maintenance(ctx)
+    _regrow(ctx)
     _forced(ctx)
     # shared with C11.1: the groups exist before the recorded identities are
     # forced (a group filled afterwards offers the forced identities again)
@@ -846,6 +948,21 @@ def check(ctx):
 _S = 'lib/python/treadmill/scheduler/__init__.py'
 
 MUTANTS = [
+    ('revert-F12-held-identities-reoffered', [(_S, """            ident_group = self.identity_groups[name]
+            ident_group.adjust(count)
+            # Apps keep the identity they hold until the next scheduling
+            # cycle, even if a previous adjustment made it invalid. Such
+            # identity is not available when the group grows again.
+            for app in six.itervalues(self.apps):
+                if app.identity_group_ref is ident_group:
+                    ident_group.available.discard(app.identity)
+""", """            self.identity_groups[name].adjust(count)
+""")], 'C05.3'),
+    ('held-identities-excluded-for-placed-only', [(_S, """                if app.identity_group_ref is ident_group:
+                    ident_group.available.discard(app.identity)
+""", """                if app.identity_group_ref is ident_group and app.server:
+                    ident_group.available.discard(app.identity)
+""")], 'C05.3'),
     ('release-dropped-infeasible', [(_S, """                    'Placement not feasible: %s %r', app.name, app.shape()
                 )
                 app.release_identity()
